@@ -81,7 +81,7 @@ fn teq(a: &T, b: &T, p: Policy) -> bool {
 fn str_label(s: &str, src: &str) -> String {
     let n = s.len();
     if n >= 200 {
-        return format!("str:len{n}");
+        return format!("str:{}", len_bucket(n));
     }
     let l = match (s, src) {
         ("", _) => "empty",
@@ -103,6 +103,15 @@ fn str_label(s: &str, src: &str) -> String {
     format!("str:{l}")
 }
 
+fn len_bucket(n: usize) -> &'static str {
+    if n <= 255 {
+        "len<=255"
+    } else if n <= 65535 {
+        "len256..65535"
+    } else {
+        "len>=65536"
+    }
+}
 /// class of a node for signatures (count-free for containers except child count)
 fn class(t: &T) -> String {
     match t {
@@ -119,7 +128,7 @@ fn key_pattern(v: &[(T, T)]) -> String {
     if v.len() > 6 {
         return format!("{}keys", v.len());
     }
-    v.iter().map(|(k, _)| if key_of(k).len() > 8 { format!("len{}", key_of(k).len()) } else { key_of(k).to_string() }).collect::<Vec<_>>().join(",")
+    v.iter().map(|(k, _)| if key_of(k).len() > 8 { len_bucket(key_of(k).len()).to_string() } else { key_of(k).to_string() }).collect::<Vec<_>>().join(",")
 }
 fn kind(t: &T) -> &'static str {
     match t {
@@ -149,7 +158,7 @@ fn first_diff(exp: &T, got: &T, p: Policy, pos: &str) -> Option<(String, String)
         (T::Obj(x), T::Obj(y)) => {
             let (mx, my) = (obj_map(x, p), obj_map(y, p));
             if mx.keys().collect::<Vec<_>>() != my.keys().collect::<Vec<_>>() {
-                return Some((format!("{}@{pos}", class(exp)), format!("obj-keys-differ({})", key_pattern(y))));
+                return Some((format!("{}@{pos}", class(exp)), "obj-keys-differ".to_string()));
             }
             for (k, a) in &mx {
                 if let Some(d) = first_diff(a, my[k], p, "value") {
@@ -541,14 +550,20 @@ impl Stats {
 
 struct Bx<'a> {
     pre: &'a str,
+    /// construct under test in the special passes (overrides the derived class)
+    hint: Option<&'a str>,
     pol: Policy,
     fails: Vec<Fail>,
 }
 impl<'a> Bx<'a> {
     fn fail(&mut self, oracle: &str, construct: String, cls: String, expected: String, observed: String) {
         let oracle = format!("{}{}", self.pre, oracle);
-        if self.fails.iter().any(|f| f.oracle == oracle) {
-            return; // one report per oracle per document
+        let construct = match self.hint {
+            Some(h) => format!("{h}@{}", if construct.contains('@') { construct.rsplit('@').next().unwrap_or("root") } else { "root" }),
+            None => construct,
+        };
+        if self.fails.iter().any(|f| f.oracle == oracle && f.construct == construct && f.cls == cls) {
+            return; // one report per signature per document
         }
         self.fails.push(Fail { oracle, construct, cls, expected, observed });
     }
@@ -622,6 +637,10 @@ fn look(v: &JsonbValue, t: &T, bx: &mut Bx, st: &mut Stats) {
                         let obs = if m.contains(&0) { "first" } else if m.contains(&(cands.len() - 1)) { "last" } else if !m.is_empty() { "middle" } else { "none-of-them" };
                         let mut sorted: Vec<&str> = entries.iter().map(|(k, _)| key_of(k)).collect();
                         sorted.sort();
+                        // canonical multiplicity pattern: distinct keys renamed x,y,z,... in sort order
+                        let mut names: Vec<&str> = sorted.clone();
+                        names.dedup();
+                        let sorted: Vec<String> = sorted.iter().map(|k| ((b'x' + names.iter().position(|n| n == k).unwrap_or(0).min(2) as u8) as char).to_string()).collect();
                         bx.fail(
                             "get",
                             format!("dup-keys({})", sorted.join(",")),
@@ -687,8 +706,8 @@ fn stepwise<'a>(root: &JsonbView<'a>, path: &[&str]) -> Option<JsonbValue<'a>> {
 }
 
 /// all view-level oracles on one JSONB byte string
-fn check_bytes(bytes: &[u8], tree: &T, pre: &str, pol: Policy, st: &mut Stats) -> Vec<Fail> {
-    let mut bx = Bx { pre, pol, fails: Vec::new() };
+fn check_bytes(bytes: &[u8], tree: &T, pre: &str, hint: Option<&str>, pol: Policy, st: &mut Stats) -> Vec<Fail> {
+    let mut bx = Bx { pre, hint, pol, fails: Vec::new() };
     let r = vcore::catch(|| {
         let view = match JsonbView::new(bytes) {
             Ok(v) => v,
@@ -717,6 +736,11 @@ fn check_bytes(bytes: &[u8], tree: &T, pre: &str, pol: Policy, st: &mut Stats) -
                 }
             }
             Err(e) => bx.fail("readback", format!("{}@root", class(tree)), "ok>accessor-err".into(), show(tree), e),
+        }
+        if !bx.fails.is_empty() {
+            // stop at divergence: the stored value is not the document, lookups on it say nothing more
+            st.add("pruned_after_readback_divergence", 1);
+            return;
         }
         // 2. lookups
         look(&root, tree, &mut bx, st);
@@ -841,7 +865,7 @@ fn blame_parse(tree: &T, parser: &dyn Fn(&str) -> bool) -> String {
     class(tree)
 }
 
-fn check_doc(tree: &T, text: &str, pol: Policy, st: &mut Stats) -> Vec<Fail> {
+fn check_doc(tree: &T, text: &str, hint: Option<&str>, pol: Policy, st: &mut Stats) -> Vec<Fail> {
     match my_parse(text) {
         Ok(t) if same_tree(&t, tree) => {}
         other => vcore::machinery(&format!("C32 harness self-check: generator tree and harness parser disagree on {text:?}: {:?}", other.map(|t| show(&t)))),
@@ -876,14 +900,14 @@ fn check_doc(tree: &T, text: &str, pol: Policy, st: &mut Stats) -> Vec<Fail> {
         }
     };
     st.add("jsonb_bytes_total", bytes.len() as u64);
-    fails.extend(check_bytes(&bytes, tree, "", pol, st));
+    fails.extend(check_bytes(&bytes, tree, "", hint, pol, st));
     match vcore::catch(|| build_with_builder(tree)) {
         Ok(b2) => {
             if b2 == bytes {
                 st.add("builder_bytes_identical_to_to_jsonb_bytes", 1);
             } else {
                 st.add("builder_bytes_differ", 1);
-                fails.extend(check_bytes(&b2, tree, "builder-", pol, st));
+                fails.extend(check_bytes(&b2, tree, "builder-", hint, pol, st));
             }
         }
         Err(p) => fails.push(Fail { oracle: "builder-encode".into(), construct: format!("{}@root", class(tree)), cls: "ok>panic".into(), expected: "bytes".into(), observed: p }),
@@ -1032,7 +1056,7 @@ impl<'a> Run<'a> {
         if self.done < 3 {
             rep.begin_case(&json!({"kind":"doc","text":text}).to_string());
         }
-        let fails = check_doc(tree, &text, self.pol, &mut self.st);
+        let fails = check_doc(tree, &text, None, self.pol, &mut self.st);
         self.done += 1;
         self.st.add(pass, 1);
         if !fails.is_empty() {
@@ -1201,7 +1225,7 @@ fn sql_check(run: &mut Run, rep: &mut Reporter, name: &str, docs: &[T]) {
             for ((d, text), r) in docs.iter().zip(&texts).zip(res) {
                 run.st.add("sql_documents", 1);
                 let fails = match r {
-                    Ok(bytes) => check_bytes(&bytes, d, "sql-", run.pol, &mut run.st),
+                    Ok(bytes) => check_bytes(&bytes, d, "sql-", None, run.pol, &mut run.st),
                     Err(e) => {
                         let c = blame_parse(d, &|s| matches!(sql_roundtrip(run.ctx, "blame", &[s.to_string()]), Ok(v) if v[0].is_ok()));
                         vec![Fail { oracle: "sql-insert".into(), construct: c, cls: "ok>err".into(), expected: format!("stored {}", show(d)), observed: e }]
@@ -1235,7 +1259,7 @@ impl Check for C32 {
         let mut s = Spec::new(
             "C32",
             "exploration",
-            "a case is one JSON document, generated as tree+text together. Scalars S = {null,true,false,0,-1,1.5,1e10,1E-2,\"\",\"a\",\"é\",\"\\\"\\\\\\n\",\"\\u0041\"}, keys K = {a,b,é}. Passes (pairwise disjoint by construction): P0 the 15 depth-1 documents; P1 every root array/object with <=3 children from S+{[],{}} and EVERY key sequence in K^k (duplicates, unsorted orders), in a compact and a whitespace-heavy text style; P2 depth 3: every root with <=3 children from C = leaves + all containers with 1..2 children over a reduced leaf set R (quick R={null,\"é\",[]}, leaves 6 scalars; thorough R={null,1.5,\"é\",[],{}}, leaves all of S) with every key sequence in K^k at the root, at least one child of depth 2; P3 depth 4: root with 1..2 children, one from G3\\G2 (G_d = all trees of depth<=d with <=2 children over {\"é\",[],{}}, keys a / ab,ba,aa) and the other from G1 (quick) or G2 (thorough), both orders; chains of depth 5..8 (4 nesting kinds x 15 leaves); escape/number forms (18 extra scalars x 5 positions); string lengths {254..256, 65534..65537, 70000} (ASCII and 2-byte chars) x 4 positions; one array whose data section exceeds 2^24 bytes; SQL layer: documents of P0/P1 (quick: <=2 children and 3-element arrays; thorough: all), chains, escape forms and lengths INSERTed into a JSONB column and read back with SELECT *. Every document is non-trivial (exercises parse, encode, view).",
+            "a case is one JSON document, generated as tree+text together. Scalars S = {null,true,false,0,-1,1.5,1e10,1E-2,\"\",\"a\",\"é\",\"\\\"\\\\\\n\",\"\\u0041\"}, keys K = {a,b,é}. Passes (pairwise disjoint by construction): P0 the 15 depth-1 documents; P1 every root array/object with <=3 children from S+{[],{}} and EVERY key sequence in K^k (duplicates, unsorted orders), in a compact and a whitespace-heavy text style; P2 depth 3: every root with <=3 children from C = leaves + all containers with 1..2 children over a reduced leaf set R (quick R={null,\"é\",[]}, leaves 6 scalars; thorough R={null,\"é\",[],{}}, leaves all of S) with every key sequence over {a,b} (quick) / K (thorough) at the root, at least one child of depth 2; P3 depth 4: root with 1..2 children, one from G3\\G2 (G_d = all trees of depth<=d with <=2 children over {\"é\",[],{}}, keys a / ab,ba,aa) and the other from G1 (quick) or G2 (thorough), both orders; chains of depth 5..8 (4 nesting kinds x 15 leaves); escape/number forms (18 extra scalars x 5 positions); string lengths {254..256, 65534..65537, 70000} (ASCII and 2-byte chars) x 4 positions; one array whose data section exceeds 2^24 bytes; SQL layer: documents of P0/P1 (quick: <=2 children and 3-element arrays; thorough: all), chains, escape forms and lengths INSERTed into a JSONB column and read back with SELECT *. Every document is non-trivial (exercises parse, encode, view).",
         );
         s.assumptions = &[
             "numbers are compared by f64 value (-0 = 0); std's str::parse::<f64> is trusted for re-reading to_json_string output",
@@ -1244,7 +1268,7 @@ impl Check for C32 {
             "get_path is compared with stepwise calls of the real get (differential), get itself with the generated tree",
             "generated tree and text are cross-checked by the harness's own parser on every document (machinery error on disagreement)",
         ];
-        s.cap_quick_s = 90;
+        s.cap_quick_s = 100;
         s.cap_thorough_s = 1200;
         vec![s]
     }
@@ -1271,13 +1295,14 @@ impl Check for C32 {
         let (leaves2, r2): (Vec<T>, Vec<T>) = if quick {
             (by_src(&["null", "true", "1.5", "1E-2", "\"é\"", "\"\\\"\\\\\\n\"", "[]", "{}"]), by_src(&["null", "\"é\"", "[]"]))
         } else {
-            (t1v.clone(), by_src(&["null", "1.5", "\"é\"", "[]", "{}"]))
+            (t1v.clone(), by_src(&["null", "\"é\"", "[]", "{}"]))
         };
         let mut c2 = leaves2.clone();
         let nleaf = c2.len();
         c2.extend(containers2(&r2, &["a", "b"]));
         rep.bound("P2_child_set_size", json!(c2.len()));
-        run.product(rep, &c2, 3, &["a", "b", "é"], &|ix| ix.iter().any(|i| *i >= nleaf), &[false], "P2_depth3");
+        let alpha2: &[&str] = if quick { &["a", "b"] } else { &["a", "b", "é"] };
+        run.product(rep, &c2, 3, alpha2, &|ix| ix.iter().any(|i| *i >= nleaf), &[false], "P2_depth3");
 
         // P3: depth 4, <= 2 children
         let g1 = by_src(&["\"é\"", "[]", "{}"]);
@@ -1355,7 +1380,8 @@ impl Check for C32 {
                         let d = length_doc(*n, pos, mb);
                         let text = text_of(&d, false);
                         rep.begin_case(&json!({"kind":"len","n":n,"pos":pos,"mb":mb}).to_string());
-                        let fails = check_doc(&d, &text, pol, &mut run.st);
+                        let fails = check_doc(&d, &text, Some(&format!("str:{}", len_bucket(*n))), pol, &mut run.st);
+                        run.done += 1;
                         run.st.add("string_length_boundaries", 1);
                         let _ = li;
                         report(rep, fails, &|| json!({"kind":"len","n":n,"pos":pos,"mb":mb}));
@@ -1367,7 +1393,8 @@ impl Check for C32 {
             rep.begin_case("{\"kind\":\"bigdata\"}");
             let d = bigdata_doc();
             let text = text_of(&d, false);
-            let fails = check_doc(&d, &text, pol, &mut run.st);
+            let fails = check_doc(&d, &text, Some("data-section>=2^24"), pol, &mut run.st);
+            run.done += 1;
             run.st.add("data_section_over_16MiB", 1);
             report(rep, fails, &|| json!({"kind":"bigdata"}));
         }
@@ -1396,7 +1423,8 @@ impl Check for C32 {
             }
             sql_docs.extend(chains.iter().cloned());
             sql_docs.extend(esc_docs.iter().cloned());
-            for n in LENS {
+            // longer values do not fit a row ("not enough free space": a storage limit, not a JSON matter)
+            for n in [254usize, 255, 256, 4000] {
                 for pos in 0..4 {
                     sql_docs.push(length_doc(n, pos, false));
                 }
@@ -1419,9 +1447,8 @@ impl Check for C32 {
         if run.capped {
             rep.capped("deadline reached inside the document enumeration");
         }
-        let sqln = run.st.c.get("sql_documents").copied().unwrap_or(0);
         rep.bulk(run.done, run.done);
-        let _ = sqln;
+        rep.pruned(run.st.c.get("pruned_after_readback_divergence").copied().unwrap_or(0));
         for (k, v) in &run.st.c {
             rep.count(k, *v);
         }
@@ -1458,7 +1485,12 @@ impl Check for C32 {
             }
             _ => vcore::machinery("C32: unknown case kind"),
         };
-        let fails = check_doc(&tree, &text, pol, &mut st);
+        let hint: Option<String> = match case["kind"].as_str() {
+            Some("len") => Some(format!("str:{}", len_bucket(case["n"].as_u64().unwrap_or(0) as usize))),
+            Some("bigdata") => Some("data-section>=2^24".into()),
+            _ => None,
+        };
+        let fails = check_doc(&tree, &text, hint.as_deref(), pol, &mut st);
         let c = case.clone();
         report(rep, fails, &|| c.clone());
         rep.bulk(1, 1);
